@@ -1,179 +1,357 @@
-import ProductMD.Proofs.TreeInfoForest
+import ProductMD.Proofs.TextOKDecide
+import ProductMD.Proofs.TreeInfoAligned
+import ProductMD.Proofs.TreeInfoSecondDump
+import ProductMD.Proofs.TreeInfoDecEq
+import ProductMD.Model.TreeInfoText
 import ProductMD.Model.DiscInfo
-import ProductMD.Model.IniText
+import ProductMD.Proofs.DiscInfoRT
 /-!
 # C04 — treeinfo and discinfo survive a write/read cycle
 
-What is proved here, for trees of any size (any number of variants, any nesting depth, any number of platforms,
-images, checksums):
+For trees of any size — any number of top-level variants, children of every type at any depth, any number of
+platforms, images and checksums:
 
-* `C04_tree_written` — the document `TreeInfo.dump` hands to `SortedConfigParser.write` contains, for **every** variant
-  at **every** depth, one section of its own (`[addon-UID]` for addons, `[variant-UID]` otherwise) holding exactly
-  `varOpts`: id, uid, name, type, each of the path kinds of the generated field list that is set, the parent's UID
-  for children, and the sorted child UIDs; section names are pairwise distinct; `[release]`, `[tree]` (with the sorted
-  top-level UIDs) and the other sections hold exactly the tree's facts (`docList`).
-* `C04_release_readback` — the `[release]` reader returns the release facts from that document.
-* `C04_disc_readback_partial` — the discinfo reader inverts the writer on the list of lines.
+* `C04_tree_written`   — writer: every fact of every variant is in the document, under a section of its own.
+* `C04_tree_readback`  — **`serialize t mv = ok d → deserialize fo d = ok (norm t)`**: the assembled current-format
+  reader (header, release, base product, `[tree]`, the forest with the F7 section fallback, checksums, images with the
+  platform-suffix rule, stage2, media) returns the documented normal form of the tree.
+* `C04_tree_fixpoint`  — on a tree in normal form (`norm t = t`) the reader returns the tree itself; no validity
+  hypothesis is left (it follows from the dump having succeeded), and a second dump yields the same document.
+* `C04_tree_text`      — the same through the text: `loads (dumps t) = ok (norm t)`; the reader side is the proved
+  `parse ∘ render` theorem of `Proofs/IniRoundTrip.lean`, extended here to the comment-named `; WARNING.n` options of
+  `[general]` which the writer emits and the reader skips.
+* `C04_tree_bytes`     — `dumps (loads (dumps t)) = dumps t` for every tree the writer accepts with top-level variants filed under
+  their UID: the re-read object can be written again and shows the same bytes (`C04_tree_second_dump` on the document).
+* `C04_disc_readback`  — discinfo, on the text.
 
-The full statement `serialize t mv = .ok d → deserialize fo d = .ok (norm t)` (kept below as a comment with the
-hypotheses the proof attempt forced) is validated on every generated case by the correspondence check
-(`ti_cycle`: model load = `norm` = real load) but is NOT proved in Lean for the reader of the forest.
+Every hypothesis is a decidable property of the tree (or of the written document) and is justified against the
+quantifier of the property next to its definition; regions where the real library violates the property are
+excluded by an explicit hypothesis and have a `decide`d witness below (F8, F17, F24, F25).
+Dictionaries are association lists; `norm` puts them in `SortedDict` order, so "normal form" fixes the representative
+of each Python dict — independence of the bytes from the insertion order is C08.
 -/
 namespace PM
 open Ini TI
 
-/-- **Writer faithfulness, unbounded.**  If `dump` accepts the tree then in the written document every variant `x.2`
-of the forest (with parent UID `x.1`) is found under its own section name with exactly its facts, all section names
-are distinct, and the number of sections is that of `docList`. -/
+/-- **Writer faithfulness, unbounded.** -/
 theorem C04_tree_written (t : TreeInfo) (mv : Option Str) (d : Ini) (h : serialize t mv = .ok d) :
     ∃ g, (∀ s, d.lookup s = (docList t g).lookup s) ∧ ((docList t g).map (·.1)).Nodup ∧ d.length = (docList t g).length ∧
       ∀ x ∈ subVs none t.variants, d.lookup (secName x.2.type x.2.uid) = some (varOpts x.1 x.2) := by
   obtain ⟨n, key, v, w⟩ := serialize_spec h
   exact ⟨_, w.look, w.nodup, w.length, fun x hx => written_variant w x hx⟩
 
-/-- the identifying options of a variant section are the variant's own (the path kinds cannot shadow them: a
-`decide`d condition on the generated field list) -/
+/-- the path kinds cannot shadow the identifying options of a variant section (obligation on the generated field list) -/
 theorem C04_path_fields_disjoint :
     ∀ f ∈ Gen.TREEINFO_PATH_FIELDS, f ≠ kId ∧ f ≠ kUid ∧ f ≠ kName ∧ f ≠ kType ∧ f ≠ kParent ∧ f ≠ kAddons := by decide
 
 theorem C04_path_fields_nodup : Gen.TREEINFO_PATH_FIELDS.Nodup := by decide
 
-private theorem lookup_fixed_default (t : TreeInfo) (g : IniSec) : (docList t g).lookup DEFAULT = none := by
-  rw [docList_lookup_fixed t g DEFAULT (by decide) (by decide)]
-  simp only [fixedList, List.lookup_append, optSec_lookup_ne _ sMedia DEFAULT _ (by decide),
-    optSec_lookup_ne _ sStage2 DEFAULT _ (by decide), optSec_lookup_ne _ sChecksums DEFAULT _ (by decide),
-    baseL_lookup_ne t DEFAULT (by decide)]
-  have h1 : ¬ sGeneral = DEFAULT := by decide
-  have h2 : ¬ sTree = DEFAULT := by decide
-  have h3 : ¬ sRelease = DEFAULT := by decide
-  have h4 : ¬ sHeader = DEFAULT := by decide
-  simp [lookup_cons_eq, h1, h2, h3, h4]
-
-private theorem lookup_release' (t : TreeInfo) (g : IniSec) :
-    (docList t g).lookup sRelease = some (releaseOpts t.release t.isLayered) := by
-  rw [docList_lookup_fixed t g sRelease (by decide) (by decide)]
-  simp only [fixedList, List.lookup_append, optSec_lookup_ne _ sMedia sRelease _ (by decide),
-    optSec_lookup_ne _ sStage2 sRelease _ (by decide), optSec_lookup_ne _ sChecksums sRelease _ (by decide),
-    baseL_lookup_ne t sRelease (by decide)]
-  have h1 : ¬ sGeneral = sRelease := by decide
-  have h2 : ¬ sTree = sRelease := by decide
-  simp [lookup_cons_eq, h1, h2]
-
 /-- the written document has no `[DEFAULT]` block, so `get`/`has_option` never fall back -/
 theorem C04_no_default (t : TreeInfo) (mv : Option Str) (d : Ini) (h : serialize t mv = .ok d) : Ini.NoDefault d := by
   obtain ⟨n, key, v, w⟩ := serialize_spec h
-  unfold Ini.NoDefault
-  rw [w.look, lookup_fixed_default]
+  exact w.view.noDefault
 
-/-- **`[release]` read back.**  The current-format reader returns the release's name, short name, version and the
-layered flag from the written document. -/
-theorem C04_release_readback (t : TreeInfo) (mv : Option Str) (d : Ini) (h : serialize t mv = .ok d) :
-    deRelease .v1_0 d = .ok (t.release, t.isLayered) := by
-  have hnd := C04_no_default t mv d h
-  have hval : validateClass "treeinfo.Release" (releaseObj t.release t.isLayered) = .ok () := by
-    unfold serialize at h
-    obtain ⟨_, _, h⟩ := bind_ok h
-    unfold serializeInto at h
-    obtain ⟨_, _, h⟩ := bind_ok h
-    obtain ⟨d1, h1, h⟩ := bind_ok h
-    obtain ⟨d2, h2, h⟩ := bind_ok h
-    exact (serRelease_spec h2).2
-  obtain ⟨n, key, v, w⟩ := serialize_spec h
-  have hR : d.lookup sRelease = some (releaseOpts t.release t.isLayered) := by rw [w.look, lookup_release']
-  have hD : Ini.defaults d = [] := by unfold Ini.defaults; rw [hnd]; rfl
-  have e1 : (sRelease == DEFAULT) = false := by decide
-  have e2 : sRelease.isEmpty = false := by decide
-  have hget : ∀ k v, (releaseOpts t.release t.isLayered).lookup k = some v → Ini.get d sRelease k = .ok v := by
-    intro k v hk; simp [Ini.get, hR, hk]
-  have hhas : ∀ k, Ini.hasOption d sRelease k = ((releaseOpts t.release t.isLayered).lookup k).isSome := by
-    intro k; simp [Ini.hasOption, e1, e2, hR, hD]
-  have n1 : ¬ kVersion = kName := by decide
-  have n2 : ¬ kShort = kName := by decide
-  have n3 : ¬ kIsLayered = kName := by decide
-  have n4 : ¬ kShort = kVersion := by decide
-  have n5 : ¬ kIsLayered = kVersion := by decide
-  have n6 : ¬ kIsLayered = kShort := by decide
-  have n7 : ¬ kName = kIsLayered := by decide
-  have n8 : ¬ kVersion = kIsLayered := by decide
-  have n9 : ¬ kShort = kIsLayered := by decide
-  have l1 : (releaseOpts t.release t.isLayered).lookup kName = some t.release.name := by
-    cases t.isLayered <;> simp [releaseOpts, lookup_setsKV, lookup_cons_eq, n1, n2, n3]
-  have l2 : (releaseOpts t.release t.isLayered).lookup kVersion = some t.release.version := by
-    cases t.isLayered <;> simp [releaseOpts, lookup_setsKV, lookup_cons_eq, n4, n5]
-  have l3 : (releaseOpts t.release t.isLayered).lookup kShort = some t.release.short := by
-    cases t.isLayered <;> simp [releaseOpts, lookup_setsKV, lookup_cons_eq, n6]
-  have l4 : (releaseOpts t.release t.isLayered).lookup kIsLayered = if t.isLayered then some "true".toList else none := by
-    cases t.isLayered <;> simp [releaseOpts, lookup_setsKV, lookup_cons_eq, n7, n8, n9, n3, n5, n6]
-  have hb : Ini.toBoolean ['t', 'r', 'u', 'e'] = .ok true := by rfl
-  have eta : ({ name := t.release.name, short := t.release.short, version := t.release.version } : Product) = t.release := by
-    cases t.release; rfl
-  unfold deRelease
-  simp only [hget _ _ l1, hget _ _ l2, hget _ _ l3, hhas, l3, l4, bind, Except.bind, pure, Except.pure, Option.isSome_some, if_true]
-  cases hl : t.isLayered
-  · simp [hl] at hval ⊢
-    first | done | simp [hval, eta]
-  · have hgl : Ini.get d sRelease kIsLayered = .ok "true".toList := hget _ _ (by rw [l4, hl]; rfl)
-    simp [hl, Ini.getBoolean, hgl, hb, bind, Except.bind] at hval ⊢
-    first | done | simp [hval, hb, eta]
+/-- **C04, trees, on the document.**  Hypotheses (all decidable):
+* `hts`/`hfl` — integer build timestamp that survives `int(float(str n))` (true for `|n| ≤ 2^53`; beyond: F17);
+* `hplat`, `huok` — platform names and UIDs are non-empty and free of `,` (they travel in comma-separated options: a name
+  with a comma is not representable in the file syntax);
+* `hnd` — UIDs are pairwise distinct in the forest (a UID identifies a variant; that sibling ids are then distinct too is
+  derived from the UID alignment the generated validator enforces: `kidIds_of_valid`);
+* `htop` — no top-level variant of type `addon` (F24);
+* `hcs` — checksum paths are dictionary keys, type and value free of `:` (the `type:value` syntax);
+* `himg` — image names are dictionary keys; no platform with images is called `<x>-<tree arch>` (F25);
+* `hv` — the normal form passes the validators the reader runs (`ReadValid`; for a tree already in normal form this
+  follows from the dump having succeeded: `C04_tree_fixpoint`). -/
+theorem C04_tree_readback (fo : FloatOracle) (t : TreeInfo) (mv : Option Str) (d : Ini) (n : Int)
+    (h : serialize t mv = .ok d)
+    (hts : t.tree.ts = .int n) (hfl : fo.intOfFloatStr (Str.intStr n) = .ok n)
+    (hplat : PlatformsOK t.tree) (huok : UidsOK t.variants) (hnd : UidsNodup t.variants) 
+    (htop : TopNotAddon t.variants) (hcs : ChecksumsOK t.checksums) (himg : ImagesOK t.tree.arch t.images)
+    (hv : ReadValid (norm t)) :
+    deserialize fo d = .ok (norm t) := by
+  obtain ⟨n0, key, chosen, w⟩ := serialize_spec h
+  exact readback_of_view fo t mv d d n n0 key chosen w (serialize_valid h) w.view hts hfl hplat ⟨huok, hnd, kidIds_of_valid (serialize_valid h).forest hnd, htop⟩ hcs himg
+    (fun _ => trivial) (fun _ _ => trivial) hv
 
-/-- the decimal list of disc numbers reads back (a fact about `str(int)` / `int(str)` and `split(",")`, validated per case) -/
-def DiscsRT : DI.Discs → Prop
-  | .all => True
-  | .nums ns =>
-    let dn := Str.strip (Str.joinWith ',' (ns.map Str.intStr))
-    dn.isEmpty = false ∧ (dn == "ALL".toList) = false ∧ DI.mapMInt (Str.splitOn ',' dn) = .ok ns
+/-- **C04, trees in normal form: the cycle is the identity**, and the second dump produces the same document. -/
+theorem C04_tree_fixpoint (fo : FloatOracle) (t : TreeInfo) (mv : Option Str) (d : Ini) (n : Int)
+    (h : serialize t mv = .ok d) (hnorm : norm t = t)
+    (hts : t.tree.ts = .int n) (hfl : fo.intOfFloatStr (Str.intStr n) = .ok n)
+    (hplat : PlatformsOK t.tree) (huok : UidsOK t.variants) (hnd : UidsNodup t.variants) 
+    (htop : TopNotAddon t.variants) (hcs : ChecksumsOK t.checksums) (himg : ImagesOK t.tree.arch t.images) :
+    deserialize fo d = .ok t ∧ (deserialize fo d).bind (serialize · mv) = .ok d := by
+  have hv : ReadValid (norm t) := by rw [hnorm]; exact readValid_of_normal (serialize_valid h) hnorm
+  have := C04_tree_readback fo t mv d n h hts hfl hplat huok hnd htop hcs himg hv
+  rw [hnorm] at this
+  exact ⟨this, by rw [this]; exact h⟩
 
-/-- **discinfo, on the list of lines the writer hands to `build_file`.**  Hypotheses (each justified against the
-quantifier): `float(repr x) = x` for the finite timestamp (`hts`, CPython); description and arch without outer blanks,
-description not starting or ending with a quote character (F17d outside); the integer list reads back (`hd`).
-Missing for the full statement: the join/split of the four lines at line feeds (validated per case). -/
-theorem C04_disc_readback_partial (fo : FloatOracle) (x : DI.DiscInfo) (lines : List Str)
-    (h : DI.serialize x = .ok lines)
-    (hts : fo.reprOfFloatStr (Str.strip (Str.strip x.timestamp)) = .ok x.timestamp)
-    (hdesc : Str.strip x.description = x.description) (hq : DI.stripQuotes x.description = x.description)
-    (harch : Str.strip x.arch = x.arch) (hd : DiscsRT x.discs) :
-    DI.deserialize fo lines = .ok x := by
-  unfold DI.serialize at h
-  obtain ⟨u, hv, h⟩ := bind_ok h
-  cases u
-  injection h with h
-  subst h
-  obtain ⟨ts, desc, arch, discs⟩ := x
-  simp only at hts hdesc hq harch hd hv
-  cases discs with
-  | all =>
-    have e : Str.strip ['A', 'L', 'L'] = ['A', 'L', 'L'] := by decide
-    simp [DI.deserialize, hts, hdesc, hq, harch, e, hv]
-  | nums ns =>
-    obtain ⟨h1, h2, h3⟩ := hd
-    simp only [DI.deserialize, hts, hdesc, hq, harch, h1, h2, h3, Bool.false_or, Except.map, hv]
-    simp [hv]
+/-- `TextOK sp d` (`Proofs/TextOKDecide.lean`): the written document can travel as text — no line feed anywhere, and what the
+reader is to return (the sorted document without the comment-named options) is representable: single-line values and
+option names without outer blanks, names free of `=`/`:` and not starting with `#`, `;`, `[`.  For CPython's blank
+predicate it follows from the Boolean criterion the driver evaluates on every case: -/
+theorem C04_textOK_criterion (d : Ini) (h : IniText.Representable d = true) : TextOK Str.isPySpace d :=
+  textOK_of_representable d h
 
-/-! ### non-vacuity -/
-def C04_exTree : TreeInfo :=
+/-- **C04, trees, through the text.**  Beyond `C04_tree_readback`: `sp` is the blank predicate of `str.strip()` with
+the five facts of `SpOK` and `#`, `;` not blank; the written document satisfies `TextOK`; checksum paths and image names
+do not start with `#`/`;` (as the quantifier says). -/
+theorem C04_tree_text (sp : Char → Bool) (hsp : IniParse.SpOK sp) (hh : sp '#' = false) (hs : sp ';' = false)
+    (fo : FloatOracle) (t : TreeInfo) (mv : Option Str) (text : Str) (n : Int)
+    (h : dumps t mv = .ok text)
+    (htext : ∀ d, serialize t mv = .ok d → TextOK sp d)
+    (hck : ∀ c ∈ t.checksums, nc c.1 = true) (himn : ∀ p ∈ t.images, ∀ kv ∈ p.2, nc kv.1 = true)
+    (hts : t.tree.ts = .int n) (hfl : fo.intOfFloatStr (Str.intStr n) = .ok n)
+    (hplat : PlatformsOK t.tree) (huok : UidsOK t.variants) (hnd : UidsNodup t.variants) 
+    (htop : TopNotAddon t.variants) (hcs : ChecksumsOK t.checksums) (himg : ImagesOK t.tree.arch t.images)
+    (hv : ReadValid (norm t)) :
+    loads sp fo text = .ok (norm t) := by
+  unfold dumps at h
+  cases hser : serialize t mv with
+  | error e => rw [hser] at h; cases h
+  | ok d =>
+    rw [hser] at h
+    simp only [Except.map] at h
+    injection h with h
+    subst h
+    obtain ⟨n0, key, chosen, w⟩ := serialize_spec hser
+    obtain ⟨hnl, hrep⟩ := htext d hser
+    have hparse : IniParse.parse sp (IniText.render d) = .ok (readDoc d) := by
+      rw [render_eq_canon d w.view.noDefault]
+      exact IniParse.parse_render_dropComments hsp hh hs _ hnl hrep
+    unfold loads
+    rw [hparse]
+    show deserialize fo (readDoc d) = .ok (norm t)
+    refine readback_of_view fo t mv d (readDoc d) n n0 key chosen w (serialize_valid hser) (view_readDoc w.view) hts hfl hplat
+      ⟨huok, hnd, kidIds_of_valid (serialize_valid hser).forest hnd, htop⟩ hcs himg ?_ ?_ hv
+    · intro _ kv hkv
+      rw [checksumOpts_eq _ hcs.1] at hkv
+      obtain ⟨c, hc, rfl⟩ := List.mem_map.mp hkv
+      exact hck c hc
+    · intro p hp kv hkv
+      rw [setsKV_nil_nodup _ (himg.1 p hp)] at hkv
+      exact himn p hp kv hkv
+
+/-- C04, trees in normal form: the cycle is the identity on the text as well (no validity hypothesis left). -/
+theorem C04_tree_bytes_normal (sp : Char → Bool) (hsp : IniParse.SpOK sp) (hh : sp '#' = false) (hs : sp ';' = false)
+    (fo : FloatOracle) (t : TreeInfo) (mv : Option Str) (text : Str) (n : Int)
+    (h : dumps t mv = .ok text) (hnorm : norm t = t)
+    (htext : ∀ d, serialize t mv = .ok d → TextOK sp d)
+    (hck : ∀ c ∈ t.checksums, nc c.1 = true) (himn : ∀ p ∈ t.images, ∀ kv ∈ p.2, nc kv.1 = true)
+    (hts : t.tree.ts = .int n) (hfl : fo.intOfFloatStr (Str.intStr n) = .ok n)
+    (hplat : PlatformsOK t.tree) (huok : UidsOK t.variants) (hnd : UidsNodup t.variants) 
+    (htop : TopNotAddon t.variants) (hcs : ChecksumsOK t.checksums) (himg : ImagesOK t.tree.arch t.images) :
+    loads sp fo text = .ok t ∧ (loads sp fo text).bind (dumps · mv) = .ok text := by
+  have hser : ∃ d, serialize t mv = .ok d := by
+    unfold dumps at h
+    cases hs' : serialize t mv with
+    | error e => rw [hs'] at h; cases h
+    | ok d => exact ⟨d, rfl⟩
+  obtain ⟨d, hd⟩ := hser
+  have hv : ReadValid (norm t) := by rw [hnorm]; exact readValid_of_normal (serialize_valid hd) hnorm
+  have := C04_tree_text sp hsp hh hs fo t mv text n h htext hck himn hts hfl hplat huok hnd htop hcs himg hv
+  rw [hnorm] at this
+  exact ⟨this, by rw [this]; exact h⟩
+
+/-- **C04, trees: writing the re-read object reproduces the file byte for byte.**  For any tree the writer accepts (not only
+normal forms): the re-read object `norm t` can be written again (`serialize_conv`: every validator passes, every section name is
+fresh) and its document renders to the same bytes (`render_norm`: same sections with the same options up to creation order,
+which `SortedConfigParser.write` does not show).  Beyond `C04_tree_text`: every top-level variant is filed under its UID (`hk`;
+outside: F8, witness below) and the requested main variant, if any, is the key of a top-level variant (`hmv`). -/
+theorem C04_tree_bytes (sp : Char → Bool) (hsp : IniParse.SpOK sp) (hh : sp '#' = false) (hs : sp ';' = false)
+    (fo : FloatOracle) (t : TreeInfo) (mv : Option Str) (text : Str) (n : Int)
+    (h : dumps t mv = .ok text)
+    (htext : ∀ d, serialize t mv = .ok d → TextOK sp d)
+    (hck : ∀ c ∈ t.checksums, nc c.1 = true) (himn : ∀ p ∈ t.images, ∀ kv ∈ p.2, nc kv.1 = true)
+    (hts : t.tree.ts = .int n) (hfl : fo.intOfFloatStr (Str.intStr n) = .ok n)
+    (hplat : PlatformsOK t.tree) (huok : UidsOK t.variants) (hnd : UidsNodup t.variants)
+    (htop : TopNotAddon t.variants) (hcs : ChecksumsOK t.checksums) (himg : ImagesOK t.tree.arch t.images)
+    (hv : ReadValid (norm t)) (hk : TopKeyedByUid t.variants) (hmv : MainVariantTop t mv) :
+    loads sp fo text = .ok (norm t) ∧ (loads sp fo text).bind (dumps · mv) = .ok text := by
+  have hload := C04_tree_text sp hsp hh hs fo t mv text n h htext hck himn hts hfl hplat huok hnd htop hcs himg hv
+  refine ⟨hload, ?_⟩
+  rw [hload]
+  unfold dumps at h
+  cases hser : serialize t mv with
+  | error e => rw [hser] at h; cases h
+  | ok d =>
+    rw [hser] at h
+    simp only [Except.map] at h
+    injection h with h
+    obtain ⟨d', hd', hr⟩ := second_dump hser hv hk hnd hmv hcs.1 himg.1
+    show dumps (norm t) mv = .ok text
+    unfold dumps
+    rw [hd']
+    simp only [Except.map, hr, h]
+
+/-- the same on the document, without the text layer: the second document renders like the first -/
+theorem C04_tree_second_dump (t : TreeInfo) (mv : Option Str) (d : Ini) (h : serialize t mv = .ok d) (hv : ReadValid (norm t))
+    (hk : TopKeyedByUid t.variants) (hnd : UidsNodup t.variants) (hmv : MainVariantTop t mv)
+    (hcs : ChecksumsOK t.checksums) (himg : ImagesOK t.tree.arch t.images) :
+    ∃ d', serialize (norm t) mv = .ok d' ∧ IniText.render d' = IniText.render d :=
+  second_dump h hv hk hnd hmv hcs.1 himg.1
+
+/-- `C04_tree_bytes_normal` for CPython's `str.isspace`, with the decidable representability criterion -/
+theorem C04_tree_bytes_normal_py (fo : FloatOracle) (t : TreeInfo) (mv : Option Str) (text : Str) (n : Int)
+    (h : dumps t mv = .ok text) (hnorm : norm t = t)
+    (hrep : ∀ d, serialize t mv = .ok d → IniText.Representable d = true)
+    (hck : ∀ c ∈ t.checksums, nc c.1 = true) (himn : ∀ p ∈ t.images, ∀ kv ∈ p.2, nc kv.1 = true)
+    (hts : t.tree.ts = .int n) (hfl : fo.intOfFloatStr (Str.intStr n) = .ok n)
+    (hplat : PlatformsOK t.tree) (huok : UidsOK t.variants) (hnd : UidsNodup t.variants) 
+    (htop : TopNotAddon t.variants) (hcs : ChecksumsOK t.checksums) (himg : ImagesOK t.tree.arch t.images) :
+    loads Str.isPySpace fo text = .ok t ∧ (loads Str.isPySpace fo text).bind (dumps · mv) = .ok text :=
+  C04_tree_bytes_normal Str.isPySpace spOK_py py_hash py_semi fo t mv text n h hnorm
+    (fun d hd => textOK_of_representable d (hrep d hd)) hck himn hts hfl hplat huok hnd htop hcs himg
+
+/-! ### non-vacuity: a layered tree with a dashed top-level UID, three levels, children of all three types -/
+
+def C04_exTree0 : TreeInfo :=
   { headerVersion := "0.0".toList, release := ⟨"Fedora".toList, "F".toList, "21".toList⟩, isLayered := true,
     baseProduct := some ⟨"Base".toList, "B".toList, "7".toList⟩,
-    tree := ⟨"x86_64".toList, .int 1417653911, ["xen".toList, "x86_64".toList]⟩,
+    tree := ⟨"x86_64".toList, .int 1417653911, ["xen".toList]⟩,
     variants := [.mk "Server-optional".toList "optional".toList "Server-optional".toList "opt".toList "optional".toList [] [],
                  .mk "Server".toList "Server".toList "Server".toList "Server".toList "variant".toList
                     [("packages".toList, "Packages".toList), ("identity".toList, "id.pem".toList)]
                     [.mk "HA".toList "HA".toList "Server-HA".toList "HA".toList "addon".toList []
-                      [.mk "X".toList "X".toList "Server-HA-X".toList "X".toList "variant".toList [] []]]],
+                      [.mk "X".toList "X".toList "Server-HA-X".toList "X".toList "variant".toList [] []],
+                     .mk "AA".toList "AA".toList "Server-AA".toList "AA".toList "optional".toList [] []]],
     checksums := [("images/boot.iso".toList, "sha256".toList, "ab".toList)],
-    images := [("x86_64".toList, [("kernel".toList, "images/vmlinuz".toList)])],
-    mainimage := some "LiveOS/squashfs.img".toList, instimage := none, discnum := some 1, totaldiscs := some 2 }
+    images := [("xen".toList, [("kernel".toList, "images/vmlinuz".toList), ("Initrd".toList, "images/initrd".toList)])],
+    mainimage := some "LiveOS/squashfs.img".toList, instimage := some [], discnum := some 1, totaldiscs := some 2 }
 
-/-- the hypothesis of `C04_tree_written` / `C04_release_readback` is satisfiable by a layered tree with a dashed
-top-level UID and three levels of nesting; the written text is representable -/
-example : (serialize C04_exTree none).toBool = true := by decide +kernel
-example : (serialize C04_exTree none).toOption.map (fun d => IniText.Representable d) = some true := by decide +kernel
-example : (subVs none C04_exTree.variants).length = 4 := by decide +kernel
+/-- its normal form (children and dictionaries sorted, `x86_64` among the platforms, empty `instimage` unset) -/
+def C04_exTree : TreeInfo := norm C04_exTree0
 
-/-- the hypotheses of `C04_disc_readback_partial` are satisfiable -/
-example : DiscsRT (.nums [1, 2, 10]) := ⟨by decide, by decide, by rfl⟩
-example : DiscsRT .all := trivial
-example : Str.strip "Fedora 21".toList = "Fedora 21".toList ∧ DI.stripQuotes "Fedora 21".toList = "Fedora 21".toList := by decide
-example : (DI.serialize ⟨"1417653911.123".toList, "Fedora 21".toList, "x86_64".toList, .nums [1, 2]⟩).toBool = true := by
+/-- CPython's `int(float(s))` on the strings the examples need: exact below 2^53, rounding `2^53 + 1` down -/
+def C04_fo : FloatOracle :=
+  { intOfFloatStr := fun s => if s = "9007199254740993".toList then .ok 9007199254740992 else Str.pyInt s
+    reprOfFloatStr := fun s => .ok s }
+
+example : norm C04_exTree0 ≠ C04_exTree0 ∧ norm C04_exTree = C04_exTree := by decide +kernel
+example : (serialize C04_exTree none).toBool = true ∧ (serialize C04_exTree0 none).toBool = true := by decide +kernel
+/-- every hypothesis of `C04_tree_readback` / `C04_tree_fixpoint` holds of the example -/
+example : C04_exTree.tree.ts = .int 1417653911 ∧ C04_fo.intOfFloatStr (Str.intStr 1417653911) = .ok 1417653911 ∧
+    PlatformsOK C04_exTree.tree ∧ UidsOK C04_exTree.variants ∧ UidsNodup C04_exTree.variants ∧
+    TopNotAddon C04_exTree.variants ∧ ChecksumsOK C04_exTree.checksums ∧ ImagesOK C04_exTree.tree.arch C04_exTree.images := by
   decide +kernel
+/-- the text-level hypotheses hold too: the written document meets the representability criterion, no checksum path or
+image name is comment-like -/
+example : (serialize C04_exTree none).toOption.map IniText.Representable = some true ∧
+    (∀ c ∈ C04_exTree.checksums, nc c.1 = true) ∧ (∀ p ∈ C04_exTree.images, ∀ kv ∈ p.2, nc kv.1 = true) := by decide +kernel
+instance (vs : List Variant) : Decidable (TopKeyedByUid vs) := by unfold TopKeyedByUid; infer_instance
+/-- the extra hypotheses of `C04_tree_bytes` hold of the un-normalised example: top-level variants filed under their UID, no
+main variant requested (or the key of a top-level variant), and the normal form passes the reader's validators -/
+example : TopKeyedByUid C04_exTree0.variants ∧ (∃ v ∈ C04_exTree0.variants, v.key = "Server".toList) := by decide +kernel
+example : MainVariantTop C04_exTree0 none := fun _ h => nomatch h
+example : ReadValid (norm C04_exTree0) := by
+  have hn : norm C04_exTree = C04_exTree := by decide +kernel
+  cases hs : serialize C04_exTree none with
+  | error e =>
+    have : (serialize C04_exTree none).toBool = true := by decide +kernel
+    rw [hs] at this; cases this
+  | ok d => exact readValid_of_normal (serialize_valid hs) hn
+/-- …and the conclusion, evaluated: reading the written document gives the tree back; for the un-normalised tree its normal form -/
+example : (serialize C04_exTree none).toOption.map (deserialize C04_fo) = some (.ok C04_exTree) := by decide +kernel
+example : (serialize C04_exTree0 none).toOption.map (deserialize C04_fo) = some (.ok (norm C04_exTree0)) := by decide +kernel
+
+/-! ### witnesses for the excluded regions (real defects, replayed on the library by the check) -/
+
+def C04_one (key id uid type : Str) : TreeInfo :=
+  { headerVersion := "0.0".toList, release := ⟨"Fedora".toList, "F".toList, "21".toList⟩, isLayered := false, baseProduct := none,
+    tree := ⟨"x86_64".toList, .int 7, ["x86_64".toList]⟩,
+    variants := [.mk key id uid "n".toList type [] []],
+    checksums := [], images := [], mainimage := none, instimage := none, discnum := none, totaldiscs := none }
+
+/-- F8: a top-level variant with UID ≠ id filed under its id comes back filed under its UID, and `[general] variants` of
+the second dump differs from the first -/
+theorem C04_F8_witness :
+    let t := C04_one "optional".toList "optional".toList "Server-optional".toList "optional".toList
+    (serialize t none).toOption.map (fun d => ((deserialize C04_fo d).toOption.map fun t' =>
+        (t'.variants.map Variant.key, ((serialize t' none).toOption.map fun d' => opt d' sGeneral kVariants), opt d sGeneral kVariants)))
+      = some (some (["Server-optional".toList], some (some "Server-optional".toList), some "optional".toList)) := by
+  decide +kernel
+
+/-- F17: an integer timestamp beyond 2^53 comes back changed (with CPython's rounding of `float("9007199254740993")`) -/
+theorem C04_F17_witness :
+    let t := { C04_one "S".toList "S".toList "S".toList "variant".toList with
+               tree := ⟨"x86_64".toList, .int 9007199254740993, ["x86_64".toList]⟩ }
+    (serialize t none).toOption.map (fun d => (deserialize C04_fo d).toOption.map (·.tree.ts.str))
+      = some (some "9007199254740992".toList) := by
+  decide +kernel
+
+/-- F24: a top-level variant of type `addon` is written but cannot be read back (`NoSectionError`) -/
+theorem C04_F24_witness :
+    (serialize (C04_one "HA".toList "HA".toList "HA".toList "addon".toList) none).toOption.map (deserialize C04_fo)
+      = some (.error .parserError) := by
+  decide +kernel
+
+/-- F25: images for a platform called `xen-x86_64` in an `x86_64` tree are read back under `xen` and refused -/
+theorem C04_F25_witness :
+    let t := { C04_one "S".toList "S".toList "S".toList "variant".toList with
+               tree := ⟨"x86_64".toList, .int 7, ["x86_64".toList, "xen-x86_64".toList]⟩
+               images := [("xen-x86_64".toList, [("kernel".toList, "k".toList)])] }
+    (serialize t none).toOption.map (deserialize C04_fo) = some (.error .valueError) := by
+  decide +kernel
+
+/-! ### discinfo -/
+
+/-- **C04, discinfo, through the text.**  For every record the writer accepts: the float timestamp token reads back
+(`hts`: `float(repr x) == x`, CPython, finite `x`; a `repr` has no blanks or line feed: `hts1`), description and arch are
+single-line without outer blanks (`strip()` on write would alter them: F17d), the description does not start or end with a
+quote character (F17d), the disc numbers are `ALL` or any non-empty list of integers.  The decimal round trip of the
+numbers and the join/split of the four lines are proved, not assumed. -/
+theorem C04_disc_readback (fo : FloatOracle) (x : DI.DiscInfo) (text : Str)
+    (h : DI.dumps x = .ok text)
+    (hts : fo.reprOfFloatStr x.timestamp = .ok x.timestamp) (hts1 : Str.strip x.timestamp = x.timestamp ∧ '\n' ∉ x.timestamp)
+    (hdesc : Str.strip x.description = x.description ∧ '\n' ∉ x.description) (hq : DI.stripQuotes x.description = x.description)
+    (harch : Str.strip x.arch = x.arch ∧ '\n' ∉ x.arch)
+    (hd : x.discs = .all ∨ ∃ ns, x.discs = .nums ns ∧ ns ≠ []) :
+    DI.loads fo text = .ok x := by
+  obtain ⟨ts, desc, arch, discs⟩ := x
+  simp only at hts hts1 hdesc hq harch hd
+  unfold DI.dumps DI.serialize at h
+  obtain ⟨u, hv, h⟩ : ∃ u, validateClass "discinfo.DiscInfo" (DI.obj ⟨ts, desc, arch, discs⟩) = .ok u ∧ _ := by
+    cases hvv : validateClass "discinfo.DiscInfo" (DI.obj ⟨ts, desc, arch, discs⟩) with
+    | error e => rw [hvv] at h; cases h
+    | ok u => exact ⟨u, rfl, by rw [hvv] at h; exact h⟩
+  cases u
+  simp only [bind, Except.bind, pure, Except.pure, Except.map, hts1.1, hdesc.1, harch.1] at h
+  injection h with h
+  subst h
+  -- the last line
+  obtain ⟨hdsnl, hdsne, hread⟩ : '\n' ∉ DI.discsStr discs ∧ DI.discsStr discs ≠ [] ∧
+      DI.readDiscs (Str.strip (Str.strip (DI.discsStr discs))) = .ok discs := by
+    rcases hd with hd | ⟨ns, hd, hne⟩
+    · subst hd
+      exact ⟨by decide, by decide, by decide⟩
+    · subst hd
+      obtain ⟨r1, r2, r3, r4⟩ := DI.discs_roundtrip ns hne
+      refine ⟨DI.discs_line_no_nl ns, ?_, ?_⟩
+      · intro e
+        simp only [DI.discsStr] at e
+        rw [r4, e] at r1; cases r1
+      · rw [r4] at r1 r2 r3
+        simp only [DI.discsStr, DI.readDiscs, r4, r1, r2, r3, Bool.or_self, Bool.false_eq_true, if_false, Except.map]
+  generalize DI.discsStr discs = ds at h hdsnl hdsne hread ⊢
+  have hlines : IniParse.fileLines (DI.buildFile [ts, desc, arch, ds]) = [ts, desc, arch, ds] := by
+    apply DI.fileLines_join
+    · simp
+    · intro l hl
+      simp only [List.mem_cons, List.mem_nil_iff, or_false] at hl
+      rcases hl with rfl | rfl | rfl | rfl
+      · exact hts1.2
+      · exact hdesc.2
+      · exact harch.2
+      · exact hdsnl
+    · intro l hl
+      simp at hl; subst hl; exact hdsne
+  unfold DI.loads DI.parseFile
+  rw [hlines]
+  simp only [List.map, DI.deserialize, hts1.1, hdesc.1, harch.1, hts, hq, hread]
+  simp [hv]
+
+/-- the hypotheses of `C04_disc_readback` are satisfiable, with disc numbers of any sign and size -/
+example : (DI.dumps ⟨"1417653911.123".toList, "Fedora 21".toList, "x86_64".toList, .nums [1, 2, -3, 10 ^ 30]⟩).toBool = true
+    ∧ Str.strip "1417653911.123".toList = "1417653911.123".toList ∧ Str.strip "Fedora 21".toList = "Fedora 21".toList
+    ∧ DI.stripQuotes "Fedora 21".toList = "Fedora 21".toList := by decide +kernel
 
 end PM
